@@ -104,6 +104,9 @@ type snapCase struct {
 	// float orientation / area / ray tests on near-degenerate rings need not agree with the exact ones of the model
 	// (DESIGN §7, float seams). The property oracles still run on them.
 	skipModel bool
+	// before: calls made in the same process just before this one (neighbours sharing an edge, a polygon leaving the grid); only a
+	// history-dependent implementation needs them to reproduce a failure — the replay with the same seed makes them again
+	before []string
 }
 
 func (c *snapCase) deepest() int {
@@ -158,7 +161,11 @@ func (c *snapCase) op() string { return c.opWith("snap") }
 
 // describe: the human-readable part of a replay (tile matrix set, ids, flags, float coordinates)
 func (c *snapCase) describe() string {
-	return fmt.Sprintf("tms=%s ids=%v keep=%v reverse=%v ignoreOutside=%v polygon=%v", c.gs.name, c.tmids, c.cfg.KeepPointsAndLines, c.cfg.ReverseWindingOrder, c.cfg.IgnoreOutsideGrid, c.poly)
+	d := fmt.Sprintf("tms=%s ids=%v keep=%v reverse=%v ignoreOutside=%v polygon=%v", c.gs.name, c.tmids, c.cfg.KeepPointsAndLines, c.cfg.ReverseWindingOrder, c.cfg.IgnoreOutsideGrid, c.poly)
+	if len(c.before) > 0 {
+		d += " | snapped just before, same set, ids and flags: " + strings.Join(c.before, "; ")
+	}
+	return d
 }
 
 type ring = []ipt
